@@ -304,6 +304,13 @@ def run_case(concepts, case, spec):
         call(list, lat.upset_union(arg))
         arg = ms if form == 0 else ((c for c in list(ms)) if form == 1 else set(ms))
         call(list, lat.downset_union(arg))
+    seeds = []
+    for _ in range(5):                  # one mutable seed list, edited between calls
+        seeds.append(members[rng.randrange(n)])
+        call(list, lat.upset_union(seeds))
+        call(list, lat.downset_union(seeds))
+        if len(seeds) > 2:
+            seeds.pop(0)
     call(list, lat.upset_union([]))
     call(list, lat.downset_union(()))
     for _ in range(4):                  # abandoned traversals
